@@ -493,6 +493,124 @@ fn mode_applyparam(_seed: u64, limit: usize) -> Vec<serde_json::Value> {
     fails
 }
 
+// ------------------------------------------------------------------ mode: determinism (C09): the same sources built several times in one process
+struct Quiet;
+impl aiken_project::telemetry::EventListener for Quiet {}
+
+fn copy_dir(from: &std::path::Path, to: &std::path::Path) -> std::io::Result<()> {
+    std::fs::create_dir_all(to)?;
+    for e in std::fs::read_dir(from)? {
+        let e = e?;
+        let (p, q) = (e.path(), to.join(e.file_name()));
+        if p.is_dir() {
+            if e.file_name() == "build" { continue; }
+            copy_dir(&p, &q)?;
+        } else {
+            std::fs::copy(&p, &q)?;
+        }
+    }
+    Ok(())
+}
+
+fn build_once(src: &std::path::Path, work: &std::path::Path, tracing: aiken_lang::ast::Tracing) -> Result<String, String> {
+    // always the same scratch location, so that nothing but the process-local state (hash-map seeds, caches) differs
+    let _ = std::fs::remove_dir_all(work);
+    copy_dir(src, work).map_err(|e| format!("copy: {e}"))?;
+    let mut project = aiken_project::Project::new(work.to_path_buf(), Quiet).map_err(|e| format!("project: {e:?}"))?;
+    let out = work.join("plutus.json");
+    project
+        .build(false, tracing, out.clone(), aiken_project::options::BlueprintExport::OnlyBinaryInterface, None)
+        .map_err(|e| format!("build failed with {} errors", e.len()))?;
+    std::fs::read_to_string(&out).map_err(|e| format!("no blueprint: {e}"))
+}
+
+fn mode_determinism(_seed: u64, limit: usize) -> Vec<serde_json::Value> {
+    let mut fails = vec![];
+    let root = std::path::Path::new("/repo/examples/acceptance_tests");
+    let mut dirs: Vec<std::path::PathBuf> = std::fs::read_dir(root).map(|rd| rd.filter_map(|e| e.ok()).map(|e| e.path()).collect()).unwrap_or_default();
+    dirs.sort();
+    let work = std::env::temp_dir().join(format!("verif-determinism-{}", std::process::id()));
+    let mut n = 0;
+    let mut skipped: Vec<String> = vec![];
+    for d in dirs {
+        if fails.len() >= limit { break; }
+        let toml = std::fs::read_to_string(d.join("aiken.toml")).unwrap_or_default();
+        if toml.contains("[[dependencies]]") || !d.join("validators").is_dir() { continue; }
+        let name = d.file_name().map(|s| s.to_string_lossy().to_string()).unwrap_or_default();
+        for (tname, tracing) in [("silent", aiken_lang::ast::Tracing::silent()), ("verbose", aiken_lang::ast::Tracing::verbose())] {
+            let input = serde_json::json!({"project": format!("examples/acceptance_tests/{name}"), "tracing": tname});
+            let runs: Vec<Result<Result<String, String>, String>> = (0..3).map(|_| guarded(|| build_once(&d, &work, tracing))).collect();
+            n += 1;
+            match &runs[0] {
+                Err(p) => { fails.push(fail("determinism", "the build panicked", input, "a blueprint or diagnostics".into(), format!("panic: {p}"))); continue }
+                Ok(Err(e)) => { skipped.push(format!("{name}/{tname}: {e}")); continue }   // does not build on this tree (not a determinism question)
+                Ok(Ok(first)) => {
+                    for (k, r) in runs.iter().enumerate().skip(1) {
+                        let same = matches!(r, Ok(Ok(s)) if s == first);
+                        if !same {
+                            let diff = match r { Ok(Ok(s)) => { let i = s.bytes().zip(first.bytes()).position(|(a, b)| a != b).unwrap_or(0); format!("blueprint #{k} differs from #0 at byte {i}: ..{}..", s.chars().skip(i.saturating_sub(30)).take(80).collect::<String>()) }, other => format!("{other:?}").chars().take(200).collect() };
+                            fails.push(fail("determinism", "building the same sources again in the same process gives a different blueprint", input.clone(), "byte-identical blueprint".into(), diff));
+                            break;
+                        }
+                    }
+                }
+            }
+        }
+    }
+    // ---- a re-used code generator against a fresh one: every unit test of every dependency-free acceptance project is
+    // compiled (a) by ONE generator instance, in module/definition order, the way `aiken check` does, and (b) by a
+    // generator created just for it; the programs must be identical
+    let mut n_tests = 0;
+    let mut n_projects = 0;
+    let mut dirs: Vec<std::path::PathBuf> = std::fs::read_dir(root).map(|rd| rd.filter_map(|e| e.ok()).map(|e| e.path()).collect()).unwrap_or_default();
+    dirs.sort();
+    for d in dirs {
+        if fails.len() >= limit { break; }
+        let toml = std::fs::read_to_string(d.join("aiken.toml")).unwrap_or_default();
+        if toml.contains("[[dependencies]]") || !d.join("aiken.toml").is_file() { continue; }
+        let name = d.file_name().map(|s| s.to_string_lossy().to_string()).unwrap_or_default();
+        let input = serde_json::json!({"project": format!("examples/acceptance_tests/{name}"), "what": "re-used vs fresh generator"});
+        let r = guarded(|| -> Result<(usize, Option<String>), String> {
+            let _ = std::fs::remove_dir_all(&work);
+            copy_dir(&d, &work).map_err(|e| format!("copy: {e}"))?;
+            let mut project = aiken_project::Project::new(work.to_path_buf(), Quiet).map_err(|e| format!("project: {e:?}"))?;
+            project
+                .check(true, None, false, false, 42, 10, aiken_project::telemetry::CoverageMode::default(), aiken_lang::ast::Tracing::verbose(), false, None)
+                .map_err(|e| format!("does not type-check ({} errors)", e.len()))?;
+            let mut modules = project.modules();
+            modules.sort_by(|a, b| a.name.cmp(&b.name));
+            let mut shared = project.new_generator(aiken_lang::ast::Tracing::verbose());
+            let mut count = 0;
+            for m in &modules {
+                for def in m.ast.definitions() {
+                    if let aiken_lang::ast::Definition::Test(t) = def {
+                        if !t.arguments.is_empty() { continue; }
+                        count += 1;
+                        let reused = shared.generate_raw(&t.body, &[], &m.name).to_pretty();
+                        let fresh = project.new_generator(aiken_lang::ast::Tracing::verbose()).generate_raw(&t.body, &[], &m.name).to_pretty();
+                        if reused != fresh {
+                            return Ok((count, Some(format!("test {}.{} (the {}th program of the shared generator)", m.name, t.name, count))));
+                        }
+                    }
+                }
+            }
+            Ok((count, None))
+        });
+        match r {
+            Err(p) => fails.push(fail("determinism", "code generation panicked", input, "programs".into(), format!("panic: {p}"))),
+            Ok(Err(_)) => {}
+            Ok(Ok((c, None))) => { n_tests += c; n_projects += 1; }
+            Ok(Ok((_, Some(which)))) => fails.push(fail("determinism", "a re-used code generator emits a different program than a fresh one", input, "identical programs".into(), which)),
+        }
+    }
+    let _ = std::fs::remove_dir_all(&work);
+    println!("BOUNDS mode=determinism {n_tests} unit tests of {n_projects} dependency-free acceptance projects: one shared generator vs a fresh generator per test, programs compared as text");
+    if !skipped.is_empty() { println!("NOTE mode=determinism {} pairs did not build and were skipped, e.g. {}", skipped.len(), skipped[0]); }
+    let n = n - skipped.len();
+    println!("BOUNDS mode=determinism {n} (project, trace level) pairs: every dependency-free acceptance project with validators, built 3 times in one process (fresh randomly-seeded hash maps each time) at trace levels silent and verbose; blueprints compared byte for byte");
+    fails
+}
+
 fn main() {
     let args: Vec<String> = std::env::args().collect();
     let cmd = args.get(1).map(|s| s.as_str()).unwrap_or("");
@@ -504,6 +622,7 @@ fn main() {
     let run_mode = |mode: &str| -> Vec<serde_json::Value> {
         match mode {
             "applyparam" => mode_applyparam(seed, limit),
+            "determinism" => mode_determinism(seed, limit),
             _ => {
                 eprintln!("unknown mode {mode}");
                 std::process::exit(2)
@@ -558,6 +677,7 @@ fn main() {
 fn run_mode_all(mode: &str) -> Vec<serde_json::Value> {
     match mode {
         "applyparam" => mode_applyparam(0, 100_000),
+        "determinism" => mode_determinism(0, 100_000),
         _ => vec![],
     }
 }
